@@ -109,6 +109,13 @@ Proof.
   eapply G; eauto.
 Qed.
 
+Lemma usyms_union_err l : forall er, usyms_union l = Err er -> er = KeyErr.
+Proof.
+  induction l as [|a t IH]; intros er H; [discriminate|]. cbn [usyms_union] in H.
+  destruct (usyms a) as [s|e1] eqn:E; cbn [bind] in H; [|inversion H; subst; eapply usyms_err; eauto].
+  destruct (usyms_union t) as [r|e2]; cbn [bind] in H; [discriminate|]. inversion H; subst. eapply IH; eauto.
+Qed.
+
 Section T.
 Variable SM : Sem. (*section*)
 Hypothesis OK : SemOk SM. (*section*)
@@ -516,8 +523,9 @@ Proof.
   - apply FIN; [apply eqv_refl | apply (proj2 (wf_node op argz)); exact Wz].
   - destruct TR as [Q1 Q2].
     match goal with |- spec _ _ (if ?c then _ else _) => destruct c end; [|apply FIN; assumption].
+    destruct (usyms_union argz) as [st|er2] eqn:EA; cbn [bind]; [|rewrite (usyms_union_err _ _ EA); exact I].
     destruct (usyms new) as [now|er1] eqn:EN; cbn [bind]; [|rewrite (usyms_err _ _ EN); exact I].
-    destruct (same_set starting now); [apply FIN; assumption | exact I].
+    destruct (same_set st now); [apply FIN; assumption | exact I].
   - destruct TR as [Q1 Q2]. apply REC; [|exact Q2]. eapply eqv_trans; [apply eqval_eqv; exact B | exact Q1].
   - destruct er; try exact I. destruct TR as [AH (c & EA & O)]. cbn.
     apply (Blame_equiv t _ (Node op argz)); [apply eqval_eqv; exact B|].
